@@ -106,7 +106,12 @@ type vsCase struct {
 	// probability of cancelling an unanswered request while the pending loop is between needsReload and the hand-over
 	CancelHot float64 `json:"cancel_hot"`
 	// a request is only submitted when every earlier one has finished and nothing is loaded (load / unload cycles)
-	Sequential bool    `json:"sequential"`
+	Sequential bool `json:"sequential"`
+	// admission stage: every GetRunner call runs in its own controlled goroutine, so that the calls of several
+	// submitters interleave at the synchronisation operations inside GetRunner; hold_sched = probability with which the
+	// pending loop is kept parked while anything else can happen (the queue is not being drained)
+	ConcSubmit bool    `json:"conc_submit"`
+	HoldSched  float64 `json:"hold_sched"`
 	ExpireW    float64 `json:"expire_w"` // weight of the explicit-unload action (default 0.6, at most 3 per run; with a weight: 6)
 	FA         bool    `json:"fa"`       // OLLAMA_FLASH_ATTENTION=1
 	KVType     string  `json:"kv_type"`  // OLLAMA_KV_CACHE_TYPE
@@ -118,6 +123,8 @@ type vsStep struct {
 	Ev [][]any        `json:"ev"`
 	St map[string]any `json:"st"`
 	Ph string         `json:"ph,omitempty"` // "" = schedule, "d1"/"d2" = drain phases
+	// submitter goroutines that are inside GetRunner and cannot proceed after this step ("name@site")
+	Blk []string `json:"blk,omitempty"`
 }
 
 type vsObs struct {
@@ -208,6 +215,7 @@ type vsReqState struct {
 	cancelled bool
 	cancel    func()
 	replies   int
+	returned  bool // conc_submit: GetRunner has returned
 }
 
 type vsRun struct {
@@ -479,8 +487,26 @@ func (r *vsRun) submit(q int) {
 		}()
 		return
 	}
+	if r.c.ConcSubmit {
+		g := vhSpawn("api.submit")
+		r.ev("spawn-submit", q, g.Name, len(r.ctl.All())-1)
+		go func() {
+			vhEnter(g)
+			okCh, errCh := r.s.GetRunner(ctx, &m, opts, ka)
+			rs.returned = true
+			r.ev("submit-ret", q)
+			vhExit(g)
+			r.listen(q, rs, okCh, errCh)
+		}()
+		return
+	}
 	okCh, errCh := r.s.GetRunner(ctx, &m, opts, ka)
-	go func() {
+	rs.returned = true
+	go r.listen(q, rs, okCh, errCh)
+}
+
+func (r *vsRun) listen(q int, rs *vsReqState, okCh chan *runnerRef, errCh chan error) {
+	{
 		for {
 			select {
 			case ru := <-okCh:
@@ -514,7 +540,7 @@ func (r *vsRun) submit(q int) {
 				return
 			}
 		}
-	}()
+	}
 }
 
 func (r *vsRun) expire(m int) {
@@ -563,7 +589,7 @@ func (r *vsRun) perform(c vsChoice) bool {
 		}
 		r.submit(c.Q)
 	case "cancel":
-		if c.Q < 0 || c.Q >= len(r.reqs) || !r.reqs[c.Q].submitted || r.reqs[c.Q].cancelled {
+		if c.Q < 0 || c.Q >= len(r.reqs) || !r.reqs[c.Q].submitted || r.reqs[c.Q].cancelled || (r.c.ConcSubmit && !r.reqs[c.Q].returned) {
 			return false
 		}
 		r.reqs[c.Q].cancelled = true
@@ -610,7 +636,15 @@ func (r *vsRun) record(c vsChoice, phase string) {
 	if evs == nil {
 		evs = [][]any{}
 	}
-	r.obs.Steps = append(r.obs.Steps, vsStep{C: c, T: int64(time.Since(r.start) / time.Millisecond), Ev: evs, St: r.snapshot(), Ph: phase})
+	var blk []string
+	if r.c.ConcSubmit {
+		for _, g := range r.ctl.Parked() {
+			if strings.HasPrefix(g.Name, "api.submit#") && g.Kind != "entry" && len(g.Alts()) == 0 {
+				blk = append(blk, g.Name+"@"+g.Site)
+			}
+		}
+	}
+	r.obs.Steps = append(r.obs.Steps, vsStep{C: c, T: int64(time.Since(r.start) / time.Millisecond), Ev: evs, St: r.snapshot(), Ph: phase, Blk: blk})
 }
 
 // lockWaiters: goroutines parked at a Lock whose mutex is held.
@@ -715,6 +749,15 @@ func (r *vsRun) randomChoice() (vsChoice, bool) {
 		var rest []vsOpt
 		for _, o := range all {
 			if o.g.Site != "mock.wait" {
+				rest = append(rest, o)
+			}
+		}
+		ints = rest
+	}
+	if c.HoldSched > 0 && r.rng.Float64() < c.HoldSched {
+		var rest []vsOpt
+		for _, o := range ints {
+			if !strings.HasPrefix(o.g.Name, "Run.go1#") {
 				rest = append(rest, o)
 			}
 		}
